@@ -40,6 +40,9 @@ type genCase struct {
 	Unshuffled []int   `json:"unshuffled"`
 	Perm       []int   `json:"perm"`
 	Unperm     []int   `json:"unperm"`
+	// per-index cases for huge list sizes (MC_ShuffleIdx.tla): perm[k] / unperm[k] are the images of indices[k];
+	// the whole-list functions are not run
+	Indices []int `json:"indices"`
 }
 
 type mismatch struct {
@@ -167,6 +170,34 @@ func replay(casesPath, resultPath string) error {
 			mism = append(mism, mismatch{Line: line, Fn: fn, Detail: detail, Got: got, Want: want})
 		}
 
+		if c.Indices != nil {
+			perm := make([]int, len(c.Indices))
+			unperm := make([]int, len(c.Indices))
+			back := make([]int, len(c.Indices))
+			if p := guarded(func() {
+				for k, i := range c.Indices {
+					pi := common.PermuteIndex(rounds, common.ValidatorIndex(i), uint64(c.N), seed)
+					perm[k] = int(pi)
+					unperm[k] = int(common.UnpermuteIndex(rounds, common.ValidatorIndex(i), uint64(c.N), seed))
+					back[k] = int(common.UnpermuteIndex(rounds, pi, uint64(c.N), seed))
+				}
+			}); p != "" {
+				add("PermuteIndex/UnpermuteIndex", "panic: "+p, nil, c.Perm)
+			} else {
+				if !eqInts(perm, c.Perm) {
+					add("PermuteIndex", fmt.Sprintf("output differs from the specification (list size %d, indices %v)", c.N, c.Indices), perm, c.Perm)
+				}
+				if !eqInts(unperm, c.Unperm) {
+					add("UnpermuteIndex", fmt.Sprintf("output differs from the specification (list size %d, indices %v)", c.N, c.Indices), unperm, c.Unperm)
+				}
+				if !eqInts(back, c.Indices) {
+					add("UnpermuteIndex(PermuteIndex)", fmt.Sprintf("round trip is not the identity (list size %d)", c.N), back, c.Indices)
+				}
+			}
+			calls += 3 * len(c.Indices)
+			misses += o.misses
+			continue
+		}
 		lst := toIdx(c.Input)
 		if p := guarded(func() { common.ShuffleList(rounds, lst, seed) }); p != "" {
 			add("ShuffleList", "panic: "+p, nil, c.Shuffled)
@@ -240,6 +271,87 @@ type planItem struct {
 	Rounds int   `json:"rounds"`
 	Seed   []int `json:"seed"`
 	Offset int   `json:"offset"` // input[i] = offset + 2*i  (distinct from the indices)
+	// per-index event for a huge list size: only PermuteIndex / UnpermuteIndex of these indices
+	Indices []int `json:"indices"`
+}
+
+// idxEvent: outputs of the per-index functions at a huge list size with the digests of exactly the pre-images
+// the specification hashes for these indices (forward and inverse direction).
+type idxEvent struct {
+	Ev      string     `json:"ev"`
+	N       int        `json:"n"`
+	Rounds  int        `json:"rounds"`
+	Seed    []int      `json:"seed"`
+	Hp      [][2][]int `json:"hp"` // per round <<pre-image, digest>> of the pivot hash
+	Hw      [][][]int  `json:"hw"` // <<round, window, pre-image..., >> flattened as [ [round, window], pre, digest ] triples
+	Indices []int      `json:"indices"`
+	Perm    []int      `json:"perm"`
+	Unperm  []int      `json:"unperm"`
+	Back    []int      `json:"back"` // UnpermuteIndex(PermuteIndex(i))
+	Panic   string     `json:"panic,omitempty"`
+}
+
+// neededWindows re-states the walk of compute_shuffled_index with crypto/sha256 for ONE purpose: deciding which
+// source digests (round, position // 256) to put into the logged oracle table.  If it were wrong, the table would
+// lack a pre-image ShuffleTrace.tla asks for and TLC would stop with an infrastructure error (or hold unused
+// entries); it never takes part in a verdict.
+func neededWindows(n uint64, rounds int, seed [32]byte, index uint64, forward bool, out map[[2]uint64]bool) {
+	for k := 0; k < rounds; k++ {
+		r := k
+		if !forward {
+			r = rounds - 1 - k
+		}
+		pre := append(append([]byte{}, seed[:]...), byte(r))
+		h := sha256.Sum256(pre)
+		pivot := binary.LittleEndian.Uint64(h[:8]) % n
+		flip := (pivot + n - index) % n
+		pos := index
+		if flip > pos {
+			pos = flip
+		}
+		out[[2]uint64{uint64(r), pos / 256}] = true
+		pre2 := append(append([]byte{}, pre...), 0, 0, 0, 0)
+		binary.LittleEndian.PutUint32(pre2[33:], uint32(pos/256))
+		src := sha256.Sum256(pre2)
+		if (src[(pos%256)/8]>>(pos%8))&1 == 1 {
+			index = flip
+		}
+	}
+}
+
+func recordIdx(p planItem, enc *json.Encoder) error {
+	var seed common.Root
+	copy(seed[:], toBytes(p.Seed))
+	rounds := uint8(p.Rounds)
+	ev := idxEvent{Ev: "ShuffleIdx", N: p.N, Rounds: p.Rounds, Seed: p.Seed, Hp: [][2][]int{}, Hw: [][][]int{}, Indices: p.Indices}
+	for r := 0; r < p.Rounds; r++ {
+		pre := append(append([]byte{}, seed[:]...), byte(r))
+		d := sha256.Sum256(pre)
+		ev.Hp = append(ev.Hp, [2][]int{toInts(pre), toInts(d[:])})
+	}
+	wins := map[[2]uint64]bool{}
+	for _, i := range p.Indices {
+		neededWindows(uint64(p.N), p.Rounds, seed, uint64(i), true, wins)
+		neededWindows(uint64(p.N), p.Rounds, seed, uint64(i), false, wins)
+	}
+	for w := range wins {
+		pre := append(append([]byte{}, seed[:]...), byte(w[0]), 0, 0, 0, 0)
+		binary.LittleEndian.PutUint32(pre[33:], uint32(w[1]))
+		d := sha256.Sum256(pre)
+		ev.Hw = append(ev.Hw, [][]int{{int(w[0]), int(w[1])}, toInts(pre), toInts(d[:])})
+	}
+	ev.Perm = make([]int, len(p.Indices))
+	ev.Unperm = make([]int, len(p.Indices))
+	ev.Back = make([]int, len(p.Indices))
+	ev.Panic = guarded(func() {
+		for k, i := range p.Indices {
+			pi := common.PermuteIndex(rounds, common.ValidatorIndex(i), uint64(p.N), seed)
+			ev.Perm[k] = int(pi)
+			ev.Unperm[k] = int(common.UnpermuteIndex(rounds, common.ValidatorIndex(i), uint64(p.N), seed))
+			ev.Back[k] = int(common.UnpermuteIndex(rounds, pi, uint64(p.N), seed))
+		}
+	})
+	return enc.Encode(&ev)
 }
 
 type event struct {
@@ -277,6 +389,12 @@ func record(planPath, outPath string) error {
 		var p planItem
 		if err := json.Unmarshal(sc.Bytes(), &p); err != nil {
 			return err
+		}
+		if p.Indices != nil {
+			if err := recordIdx(p, enc); err != nil {
+				return err
+			}
+			continue
 		}
 		var seed common.Root
 		copy(seed[:], toBytes(p.Seed))
